@@ -442,6 +442,25 @@ class Node(Root):
 _TREE = None
 
 
+@dataclass
+class Top:
+    """concrete start symbol: the grammar's minimum depth is 2 (Top -> Leaf)"""
+    x: Root
+
+
+@dataclass
+class Top3:
+    """minimum depth 3 (Top3 -> Top -> Leaf)"""
+    t: Top
+
+
+def tree_setup_tight(seed=0, start=Top):
+    """a representation whose depth limit EQUALS the grammar's minimum depth (2 or 3)"""
+    g = extract_grammar([Leaf, Node, Top], start)
+    r = NativeRandomSource(seed)
+    return g, r, TreeBasedRepresentation(g, MaxDepthDecider(r, g, g.get_min_tree_depth()))
+
+
 def tree_setup(seed=0):
     g = extract_grammar([Leaf, Node], Root)
     r = NativeRandomSource(seed)
